@@ -35,7 +35,7 @@ ENTRIES = [
 AXES = {
     "bs": (["sym", 1, "full"], ["sym", 1, "full", None]),
     "lb": (["nonneg", "any"], ["nonneg", "any"]),
-    "W": (["mat", "vec"], ["mat", "vec", None]),
+    "W": (["mat", "vec", "inverse"], ["mat", "vec", None, "inverse"]),
     "K": (["vec"], ["vec", "mat", None]),
     "baseline": (["vec"], ["vec", None, "scalar"]),
 }
